@@ -141,7 +141,15 @@ async def step(w: World, rnd, weights, names, opts):
         us = [m.uid for m in b.msgs if m.uid is not None]
         if us:
             pick_u = sorted(rnd.sample(us, rnd.randint(1, min(3, len(us))))) + ([max(us) + 5] if rnd.random() < 0.3 else [])
-            await w.op_copy(ss, pick_u, dest(), uid_mode=True, move=(op == "uid_move"))
+            star = None
+            if rnd.random() < 0.3 and len(us) == len(b.msgs):
+                # the set written with `*` (the highest UID of the mailbox, whatever the message count is)
+                if rnd.random() < 0.3:
+                    pick_u, star = [max(us)], "only"
+                else:
+                    lo = rnd.choice(sorted(us)[-3:])
+                    pick_u, star = [u for u in sorted(us) if u >= lo], "tail"
+            await w.op_copy(ss, pick_u, dest(), uid_mode=True, move=(op == "uid_move"), star=star)
     elif op == "noop":
         await w.op_noop(ss)
     elif op == "check" and sel:
